@@ -136,12 +136,13 @@ def cases(tier):
 
 def class_cases(tier):
     """the CLASS of the exception a step function raises: for every `except X` clause of Step.run a subclass of X and
-    X's immediate superclass (P.CLASS_VARIANTS), in every context x {plain, @wip, dry-run, cafs, @wip+cafs}"""
+    X's immediate superclass (P.CLASS_VARIANTS), and outcomes reached THROUGH Context.execute_steps() (nested step passes /
+    fails / raises, one and two levels deep: P.EXEC_VARIANTS), in every context x {plain, @wip, dry-run, cafs, @wip+cafs}"""
     quick = tier == "quick"
-    ALPH = ("pass", "fail", "pending") + P.CLASS_VARIANTS
+    ALPH = ("pass", "fail", "pending") + P.CLASS_VARIANTS + P.EXEC_VARIANTS
     for L in (1, 2, 3):
         for seq in itertools.product(ALPH, repeat=L):
-            if not any(o in P.CLASS_VARIANTS for o in seq):
+            if not any(o in P.CLASS_VARIANTS + P.EXEC_VARIANTS for o in seq):
                 continue
             if L == 3 and quick and sum(1 for o in seq if o != "pass") > 1:
                 continue
@@ -150,7 +151,8 @@ def class_cases(tier):
                     continue
                 for wip, dry, cafs in ((0, 0, 0), (1, 0, 0), (0, 1, 0), (0, 0, 1), (1, 0, 1)):
                     yield (kind, nbg, seq, wip, dry, cafs, 0)
-                if L == 1:
+                if L == 1 and seq[0] not in P.EXEC_VARIANTS:
+                    # (a nested run_until_complete inside a running event loop is a usage error, not an outcome)
                     yield (kind, nbg, seq, 1, 0, 0, 1)      # async, @wip
 
 
